@@ -54,6 +54,8 @@ class RunnerBasics(Harness):
             {"M": 1, "A": 2, "H": 0, "S": 2, "acts": L, "pre": 0, "cap": 2, "script": "cancel-filled"},
             # two markets, agents free to hit them in any order (records must keep the global event order)
             {"M": 2, "A": 2, "H": 0, "S": 1, "acts": L, "pre": 0, "cap": 2, "script": "two-markets"},
+            # a trading halt fired by a fill, orders accepted during the halt, resumption: 3 agents, 4 steps
+            {"M": 1, "A": 3, "H": 0, "S": 4, "acts": L, "pre": 0, "cap": 3, "script": "halt"},
         ]
         if tier == "thorough":
             out += [
@@ -72,7 +74,12 @@ class RunnerBasics(Harness):
             sessions.append(rn.session("pre", case["pre"], True, False, maxNormalOrders=case["cap"]))
         sessions.append(rn.session("main", case["S"], True, True, maxNormalOrders=case["cap"],
                                    maxHighFrequencyOrders=1))
-        st = rn.base_settings(n_agents=case["A"], n_hft=case["H"], sessions=sessions, markets=markets)
+        extra = None
+        if case.get("script") == "halt":
+            sessions[-1]["events"] = ["HALT"]
+            extra = {"HALT": {"class": "TradingHaltRule", "targetMarkets": ["M0"], "triggerChangeRate": 0.1,
+                              "haltingTimeLength": 1}}
+        st = rn.base_settings(n_agents=case["A"], n_hft=case["H"], sessions=sessions, markets=markets, extra=extra)
         menu = {"acts": case["acts"], "ttl": case.get("ttl", [None])}
         sc = case.get("script")
         if sc == "hft-sweep":       # agents 0,1 normal (sell at t=0, may sell again at t=1), agent 2 HFT (buys at t=1)
@@ -87,6 +94,14 @@ class RunnerBasics(Harness):
             menu = {"vol_fixed": 1, "per_agent": {
                 "0": {"side": "B", "acts_by_time": {"0": ["limit"], "1": ["none", "cancel"]}},
                 "1": {"side": "S", "acts_by_time": {"0": ["limit"], "1": ["none", "cancel"]}}}, "ttl": [None, 1]}
+        elif sc == "halt":
+            # step 1: agent 0 bids (solver-chosen price), agent 1 sells into it, agent 2 bids again in the same step
+            # (after the halt if the fill crossed the 10% line); step 2: quotes at 300 on both sides pile up (halt)
+            # or trade; step 3: resumption
+            menu = {"vol_fixed": 1, "active_from": 1, "price_by_time": {"1": "sym", "default": 300}, "price_hi": 1000,
+                    "acts": ["limit"],
+                    "per_agent": {"0": {"side": "B", "active": [1, 2]}, "1": {"side": "S", "active": [1, 2]},
+                                  "2": {"side": "B", "active": [1, 1]}}}
         elif sc == "two-markets":
             menu = {"vol_fixed": 1, "max_orders": 2, "acts": ["none", "limit"],
                     "per_agent": {"0": {"side": "B"}, "1": {"side": "S"}}}
